@@ -66,3 +66,111 @@ Print Assumptions C10_cursor_forgets.
 Print Assumptions C10_enc_forgets.
 Print Assumptions C10_plain_archive.
 Print Assumptions C10_encrypted_archive.
+
+
+(* ====================================================================================
+   The raw and the compression layers, and the whole stack of ArchiveReader::from_config
+   (ComposeForgets.v).  `SeekForgets` as stated above is FALSE for these two layers over
+   arbitrary pairs of states (C10_raw_strict_refuted: the answer depends on offset_pos;
+   C10_comp_strict_refuted: a reader that has failed is Empty and refuses every seek; and a
+   seek to the very end of a compressed stream keeps the inner layer where it was, so the
+   resulting states are indistinguishable but not equal).  The generalisation: P relates the
+   two starting states (same offset_pos, same sizes_info, not failed), E is a bisimulation
+   (every read and every seek gives equal results from E-related states).  The theorem is
+   about every sequence of READ and SEEK calls on the top layer (any whence, any argument,
+   failing calls included), for ANY archive bytes, valid or not.
+   Partial with respect to the property: the lifting from the stream operations to the reader
+   operations of Run.hist_op (get_file, get_hash, linear extraction: each begins with an
+   absolute seek of the top layer and then only reads) is proved above for {cursor,
+   encryption over cursor} only; for the stack it needs every operation of Reader.v to respect
+   E, not done here. *)
+From MLA Require Import CompLayer RawLayer LayerStack ComposeForgets.
+
+Theorem C10_stream_history_independent :
+  forall (S : Stream) (P E : st S -> st S -> Prop), SeekForgetsE S P E ->
+  forall s1 s2 p ops, P s1 s2 ->
+    snd (sk S s1 (FromStart p)) = snd (sk S s2 (FromStart p)) /\
+    (is_ok (snd (sk S s1 (FromStart p))) = true ->
+     run_sops S s1 (SSeek (FromStart p) :: ops) = run_sops S s2 (SSeek (FromStart p) :: ops)).
+Proof. exact stream_history_independent. Qed.
+
+Theorem C10_raw_forgets :
+  forall S P, SeekForgetsP S P -> SeekForgetsP (RawReader S) (Praw S P).
+Proof. exact forgetsP_raw. Qed.
+Theorem C10_enc_forgets_P :
+  forall CHUNK TAG ks tagc S P, SeekForgetsP S P ->
+    SeekForgetsP (EncReader CHUNK TAG ks tagc S) (Penc CHUNK TAG ks tagc S P).
+Proof. exact forgetsP_enc. Qed.
+Theorem C10_comp_forgets :
+  forall BLOCK dec S P, SeekForgetsP S P ->
+    SeekForgetsE (CompReader BLOCK dec S) (Pcomp S P) (Ecomp S P).
+Proof. exact forgetsE_comp. Qed.
+Theorem C10_raw_strict_refuted :
+  exists s1 s2 : st (RawReader (Cursor [1; 2; 3])),
+    snd (sk (RawReader (Cursor [1; 2; 3])) s1 (FromStart (2 ^ 64 - 1))) <>
+    snd (sk (RawReader (Cursor [1; 2; 3])) s2 (FromStart (2 ^ 64 - 1))).
+Proof. exact raw_strict_refuted. Qed.
+Theorem C10_comp_strict_refuted :
+  let S := Cursor [0; 0; 0; 0] in
+  let si := Some (mkSI [4] 4) in
+  exists c1 c2 : st (CompReader 4 (fun x => x) S),
+    c_si c1 = c_si c2 /\
+    snd (sk (CompReader 4 (fun x => x) S) c1 (FromStart 0)) <> snd (sk (CompReader 4 (fun x => x) S) c2 (FromStart 0)).
+Proof. exact comp_strict_refuted. Qed.
+
+(* compression over encryption over raw over any source whose absolute seek forgets (cursor,
+   throttled file): from any two states of the stack that have not failed, with the same
+   sizes_info and offset_pos, after seek(Start(p)) every sequence of reads and seeks gives the
+   same results *)
+Theorem C10_stack_history_independent :
+  forall CHUNK TAG BLOCK ks tagc dec (S : Stream) (P : st S -> st S -> Prop), SeekForgetsP S P ->
+  forall (c1 c2 : st (CompS CHUNK TAG BLOCK ks tagc dec S)) p ops,
+    Pstack CHUNK TAG BLOCK ks tagc dec S P c1 c2 ->
+    snd (sk (CompS CHUNK TAG BLOCK ks tagc dec S) c1 (FromStart p)) =
+    snd (sk (CompS CHUNK TAG BLOCK ks tagc dec S) c2 (FromStart p)) /\
+    (is_ok (snd (sk (CompS CHUNK TAG BLOCK ks tagc dec S) c1 (FromStart p))) = true ->
+     run_sops (CompS CHUNK TAG BLOCK ks tagc dec S) c1 (SSeek (FromStart p) :: ops) =
+     run_sops (CompS CHUNK TAG BLOCK ks tagc dec S) c2 (SSeek (FromStart p) :: ops)).
+Proof. exact stack_history_independent. Qed.
+Theorem C10_cursor_forgets_P : forall b, SeekForgetsP (Cursor b) (fun _ _ => True).
+Proof. exact forgetsP_cursor. Qed.
+
+(* non-vacuity: CHUNK = 16, TAG = 4, BLOCK = 8, toy cipher, identity "compression", 20 bytes
+   of plaintext behind a 3-byte header; c0 = the freshly opened stack, c1 = after reading 5
+   bytes, seeking to the end and reading again *)
+Definition ex_arch : bytes := archive 16 8 toy_ks (toy_tag 4) (fun x => x) [1; 2; 3] (map N.of_nat (seq 100 20)) 3.
+Definition ex_stack : Stream := CompS 16 4 8 toy_ks (toy_tag 4) (fun x => x) (Cursor ex_arch).
+Definition ex_c0 : st ex_stack :=
+  fst (comp_open 1000 (EncS 16 4 toy_ks (toy_tag 4) (Cursor ex_arch)) (enc_initialize 16 4 toy_ks (toy_tag 4) (Cursor ex_arch))
+         (@mkE (RawS (Cursor ex_arch)) (fst (raw_open (Cursor ex_arch) 3)) [] 0 0)).
+Definition ex_c1 : st ex_stack :=
+  fst (rd ex_stack (fst (sk ex_stack (fst (rd ex_stack ex_c0 5)) (FromEnd 0))) 4).
+Definition ex_dummy : st (EncS 16 4 toy_ks (toy_tag 4) (Cursor ex_arch)) :=
+  @mkE (RawS (Cursor ex_arch)) (@mkR (Cursor ex_arch) 0 0) [] 0 0.
+Definition ex_inner (c : st ex_stack) : st (EncS 16 4 toy_ks (toy_tag 4) (Cursor ex_arch)) :=
+  match into_inner _ (c_state c) with Ok i => i | _ => ex_dummy end.
+Example C10_example_stack :
+  let ops := [SRead 3; SSeek (FromCur 2); SRead 100; SSeek (FromEnd 0); SRead 1; SSeek (FromStart 999)] in
+  run_sops ex_stack ex_c0 (SSeek (FromStart 6) :: ops) = run_sops ex_stack ex_c1 (SSeek (FromStart 6) :: ops) /\
+  nth 1 (run_sops ex_stack ex_c1 (SSeek (FromStart 6) :: ops)) (inr (Err EFuel)) = inl (Ok [106; 107]) /\
+  c_pos ex_c0 <> c_pos ex_c1.
+Proof.
+  intros ops.
+  assert (HP : Pstack 16 4 8 toy_ks (toy_tag 4) (fun x => x) (Cursor ex_arch) (fun _ _ => True) ex_c0 ex_c1).
+  { split; [vm_compute; reflexivity|]. exists (ex_inner ex_c0), (ex_inner ex_c1).
+    split; [vm_compute; reflexivity|]. split; [vm_compute; reflexivity|].
+    unfold Penc, Praw. split; [vm_compute; reflexivity | exact I]. }
+  destruct (C10_stack_history_independent 16 4 8 toy_ks (toy_tag 4) (fun x => x) (Cursor ex_arch) _
+              (C10_cursor_forgets_P ex_arch) ex_c0 ex_c1 6 ops HP) as [_ Hall].
+  split; [apply Hall; vm_compute; reflexivity|]. split; [vm_compute; reflexivity|].
+  vm_compute. discriminate.
+Qed.
+
+Print Assumptions C10_stream_history_independent.
+Print Assumptions C10_raw_forgets.
+Print Assumptions C10_enc_forgets_P.
+Print Assumptions C10_comp_forgets.
+Print Assumptions C10_raw_strict_refuted.
+Print Assumptions C10_comp_strict_refuted.
+Print Assumptions C10_stack_history_independent.
+Print Assumptions C10_example_stack.
